@@ -264,3 +264,137 @@ Example typed_shape_example :
   shape_ok_id shipped_env 20 msg_id msg_undeclared = false /\
   shape_ok_id shipped_env 20 msg_id msg_illtyped = false.
 Proof. exact msg_example. Qed.
+
+(* ---- (e, continued) the shape relation and the validator ----
+   `shaped` is linked to the validator of (b): Schema/Skeleton.v reads a written tree as a JSON value (`to_json`:
+   number texts by the JSON grammar into mantissa * 10^exponent, None outside the grammar) and erases from a schema,
+   at every depth, exactly the value-level keywords `shaped` ignores (`skeleton`: required, oneOf, anyOf, const,
+   enum, pattern, format, minLength, maxLength; $id / $defs / annotations and everything structural are kept;
+   `skeleton_env`: the same on a reference environment).  No well-formedness hypothesis is needed. *)
+From Verif Require Import Schema.Skeleton Schema.SkeletonProofs Schema.SkeletonWrittenProofs Schema.SkeletonShippedProofs.
+
+(* a tree the schema shapes, read as a JSON value, conforms to the schema's skeleton ... *)
+Theorem shaped_is_validated_by_the_skeleton e base s v j :
+  shaped e base s v -> to_json v = Some j -> conforms (skeleton_env e) base (skeleton s) j.
+Proof. exact (shaped_conforms_skeleton e base s v j). Qed.
+Print Assumptions shaped_is_validated_by_the_skeleton.
+
+(* ... and the executable validator says so for every fuel above a bound *)
+Theorem shaped_is_accepted_by_the_validator_on_the_skeleton e base s v j :
+  shaped e base s v -> to_json v = Some j ->
+  exists n, forall m, (n <= m)%nat -> validate (skeleton_env e) m base (skeleton s) j = Some true.
+Proof. exact (shaped_validates_skeleton e base s v j). Qed.
+Print Assumptions shaped_is_accepted_by_the_validator_on_the_skeleton.
+
+(* monotonicity: whatever the full schema accepts, its skeleton accepts (every kept applicator is used positively;
+   additionalProperties sees the same covered names, oneOf / anyOf are dropped whole) *)
+Theorem accepted_by_the_schema_is_accepted_by_its_skeleton e base s j :
+  conforms e base s j -> conforms (skeleton_env e) base (skeleton s) j.
+Proof. exact (conforms_skeleton e base s j). Qed.
+Print Assumptions accepted_by_the_schema_is_accepted_by_its_skeleton.
+
+Theorem accepted_document_is_accepted_by_the_skeleton e id j :
+  conforms_id e id j -> conforms_id (skeleton_env e) id j.
+Proof. exact (conforms_id_skeleton e id j). Qed.
+Print Assumptions accepted_document_is_accepted_by_the_skeleton.
+
+(* what `skeleton` is: nothing value-level is left, a schema without value-level keywords is untouched, and the
+   skeletonised environment is the environment of the skeletonised files *)
+Theorem skeleton_has_no_value_level_keyword s : structural (skeleton s) = true.
+Proof. exact (skeleton_structural s). Qed.
+Print Assumptions skeleton_has_no_value_level_keyword.
+
+Theorem skeleton_keeps_structural_schemas s : structural s = true -> skeleton s = s.
+Proof. exact (structural_skeleton s). Qed.
+Print Assumptions skeleton_keeps_structural_schemas.
+
+Theorem skeleton_env_is_the_env_of_skeleton_files files :
+  env_of_files (map (fun f => (fst f, skeleton (snd f))) files) = skeleton_env (env_of_files files).
+Proof. exact (env_of_files_skeleton files). Qed.
+Print Assumptions skeleton_env_is_the_env_of_skeleton_files.
+
+(* an integer literal reads as an integer: the `type: integer` of `shaped` and of the validator agree *)
+Theorem written_type_is_the_validators_type v t j :
+  tv_has_type v t = true -> to_json v = Some j -> has_type j t = true.
+Proof. exact (tv_has_type_to_json v t j). Qed.
+Print Assumptions written_type_is_the_validators_type.
+
+(* documents: what the library serialises for a registered type (outside the listed exceptions) is ACCEPTED by the
+   published schema of that type with the value-level keywords erased *)
+Theorem typed_documents_conform_to_the_published_skeleton_partial id j v d :
+  ~ In id shape_unchecked ->
+  reenc_schema id j = Ok v -> v <> Typed.TNull -> null_clean false v = true -> to_json v = Some d ->
+  conforms_id (skeleton_env shipped_env) id d.
+Proof. exact (written_documents_conform_to_skeleton_partial id j v d). Qed.
+Print Assumptions typed_documents_conform_to_the_published_skeleton_partial.
+
+Theorem typed_documents_are_validated_by_the_published_skeleton_partial id j v d :
+  ~ In id shape_unchecked ->
+  reenc_schema id j = Ok v -> v <> Typed.TNull -> null_clean false v = true -> to_json v = Some d ->
+  exists n, forall m, (n <= m)%nat -> validate_id (skeleton_env shipped_env) m id d = Some true.
+Proof. exact (written_documents_validated_by_skeleton_partial id j v d). Qed.
+Print Assumptions typed_documents_are_validated_by_the_published_skeleton_partial.
+
+Theorem typed_documents_with_nulls_are_validated_by_the_published_skeleton_partial id j v d :
+  ~ In id (shape_unchecked ++ shape_null_members) ->
+  reenc_schema id j = Ok v -> v <> Typed.TNull -> null_clean true v = true -> to_json v = Some d ->
+  exists n, forall m, (n <= m)%nat -> validate_id (skeleton_env shipped_env) m id d = Some true.
+Proof. exact (written_documents_validated_by_skeleton_strict_partial id j v d). Qed.
+Print Assumptions typed_documents_with_nulls_are_validated_by_the_published_skeleton_partial.
+
+(* the written tree reads as a JSON value whenever the tree that was given does (`readable`: every number text is
+   in the JSON grammar - true of whatever a JSON parser builds).  The hypothesis is needed: the model's
+   canonical_float accepts the text "--1", outside the grammar *)
+Theorem written_trees_read_as_json E fuel t j v :
+  readable j = true -> reenc E fuel t j = Ok v -> exists d, to_json v = Some d.
+Proof. exact (reenc_readable E fuel t j v). Qed.
+Print Assumptions written_trees_read_as_json.
+
+(* ... so for a registered type outside the listed exceptions, what the library serialises from a readable tree IS
+   a JSON value and the validator ACCEPTS it for the published schema with the value-level keywords erased *)
+Theorem typed_documents_are_accepted_by_the_published_skeleton_partial id j v :
+  ~ In id shape_unchecked -> readable j = true ->
+  reenc_schema id j = Ok v -> v <> Typed.TNull -> null_clean false v = true ->
+  exists d, to_json v = Some d /\
+            exists n, forall m, (n <= m)%nat -> validate_id (skeleton_env shipped_env) m id d = Some true.
+Proof. exact (written_documents_read_and_validated_by_skeleton_partial id j v). Qed.
+Print Assumptions typed_documents_are_accepted_by_the_published_skeleton_partial.
+
+Theorem typed_documents_with_nulls_are_accepted_by_the_published_skeleton_partial id j v :
+  ~ In id (shape_unchecked ++ shape_null_members) -> readable j = true ->
+  reenc_schema id j = Ok v -> v <> Typed.TNull -> null_clean true v = true ->
+  exists d, to_json v = Some d /\
+            exists n, forall m, (n <= m)%nat -> validate_id (skeleton_env shipped_env) m id d = Some true.
+Proof. exact (written_documents_read_and_validated_by_skeleton_strict_partial id j v). Qed.
+Print Assumptions typed_documents_with_nulls_are_accepted_by_the_published_skeleton_partial.
+
+(* the published skeleton is a real weakening: it has no value-level keyword left, the published files have *)
+Theorem published_skeleton_is_structural :
+  forallb (fun t => structural (snd t)) (skeleton_env shipped_env) = true /\
+  forallb (fun t => structural (snd t)) shipped_env = false.
+Proof. exact shipped_skeleton_structural. Qed.
+Print Assumptions published_skeleton_is_structural.
+
+(* non-vacuity on note.Message: the written tree reads as a JSON value; the skeleton and the published schema
+   accept it; a message without the required `content` passes the skeleton only; the undeclared member that
+   `shaped` refuses passes the skeleton (the validator reads schema objects as open: `shaped` is the stronger
+   notion); an ill-typed member does not *)
+Example typed_skeleton_example :
+  let d := JObj [(bs "title", JStr (bs "T")); (bs "content", JStr (bs "hello"));
+                 (bs "meta", JObj [(bs "a", JStr (bs "1")); (bs "b", JStr (bs "2"))])] in
+  let no_content := JObj [(bs "title", JStr (bs "T"))] in
+  reenc_schema msg_id msg_in = Ok msg_out /\ readable msg_in = true /\ to_json msg_out = Some d /\
+  validate_id (skeleton_env shipped_env) 20 msg_id d = Some true /\
+  validate_id shipped_env 20 msg_id d = Some true /\
+  validate_id (skeleton_env shipped_env) 20 msg_id no_content = Some true /\
+  validate_id shipped_env 20 msg_id no_content = Some false /\
+  option_map (validate_id (skeleton_env shipped_env) 20 msg_id) (to_json msg_undeclared) = Some (Some true) /\
+  option_map (validate_id (skeleton_env shipped_env) 20 msg_id) (to_json msg_illtyped) = Some (Some false).
+Proof. exact msg_skeleton_example. Qed.
+
+Example number_text_examples :
+  map num_of_text [bs "0"; bs "-0"; bs "12.50"; bs "-1.5e-3"; bs "1E+2"] =
+    [Some (0, 0); Some (0, 0); Some (1250, -2); Some (-15, -4); Some (1, 2)]%Z /\
+  map num_of_text [bs "01"; bs "1."; bs ".5"; bs "1e"; bs "--1"; bs ""; bs "-"; bs "1x"; bs "+1"; bs "1e5x"] =
+    [None; None; None; None; None; None; None; None; None; None].
+Proof. exact num_of_text_examples. Qed.
